@@ -274,7 +274,7 @@ def gen_cases(run):
         base = dict(family='documented-representations', task=task, logical=logical, mode=mode, n=n, d=r.choice([3, 4, 6]),
                     max_leaf_size=L, kernel=kernels[k % len(kernels)], diag=(k % 4 == 3), iters=r.choice([0, 1, 1, 2]),
                     split_method=r.choice(['top_vector_agop_on_subset', 'top_vector_agop_on_subset', 'pca', 'random_pca']),
-                    tuning=(k % 3 == 0), split_temperature=[None, 0.3][k % 2], n_trees=1 if k % 5 else 2,
+                    tuning=(k % 3 == 0) or (task == 'reg1' and depth > 0), split_temperature=[None, 0.3][k % 2], n_trees=1 if k % 5 else 2,
                     seed=r.randint(0, 10 ** 6), dseed=r.randint(0, 10 ** 6))
         for part in core.chunks(combos, max(1, (len(combos) + 7) // 8)):
             cases.append(dict(base, reps=part))
